@@ -1523,20 +1523,25 @@ func (in *Interp) rangeNext(fr *frame, x *ssa.Next, itv Value) Value {
 		// 0xF5..0xFF: continuation bytes, overlong leads, leads beyond U+10FFFF), which Go decodes as
 		// (utf8.RuneError, width 1) whatever follows. A feasible valid lead byte 0xC2..0xF4 is outside
 		// the encoding (its decoding depends on the following symbolic bytes).
-		// (the not-encodable alternative is explored last, so that what can be decided is decided first)
-		k := in.Ex.Decide(3, func(k int) *Term {
-			switch k {
-			case 0:
-				return P.Ult(b, P.Const(8, 0x80))
-			case 1:
-				return P.And(P.Ule(P.Const(8, 0x80), b), P.Or(P.Ult(b, P.Const(8, 0xC2)), P.Ult(P.Const(8, 0xF4), b)))
+		// Two stages, so that the first decision issues exactly the two queries "b >= 0x80" / "b < 0x80"
+		// (for most strings the first is refuted at once) and the finer split is only asked for a byte
+		// that can be non-ASCII.
+		k := in.Ex.Decide(2, func(k int) *Term {
+			if k == 0 {
+				return P.Ule(P.Const(8, 0x80), b)
 			}
-			return P.And(P.Ule(P.Const(8, 0xC2), b), P.Ule(b, P.Const(8, 0xF4)))
+			return P.Ult(b, P.Const(8, 0x80))
 		}, "UTF-8 decoding of a symbolic byte in "+fr.fn.String())
-		if k == 2 {
-			panic(&abort{abNotEncodable, "range over string: symbolic byte may be a valid UTF-8 lead byte (only ASCII and never-lead bytes are encoded)"})
-		}
-		if k == 1 {
+		if k == 0 {
+			j := in.Ex.Decide(2, func(j int) *Term {
+				if j == 0 {
+					return P.Or(P.Ult(b, P.Const(8, 0xC2)), P.Ult(P.Const(8, 0xF4), b))
+				}
+				return P.And(P.Ule(P.Const(8, 0xC2), b), P.Ule(b, P.Const(8, 0xF4)))
+			}, "UTF-8 lead-byte class of a symbolic byte in "+fr.fn.String())
+			if j == 1 {
+				panic(&abort{abNotEncodable, "range over string: symbolic byte may be a valid UTF-8 lead byte (only ASCII and never-lead bytes are encoded)"})
+			}
 			it.pos++
 			return TupleV{P.True, P.Const(64, uint64(pos)), P.Const(32, uint64(utf8.RuneError))}
 		}
